@@ -40,8 +40,8 @@ Covers(e, s) == OnSeg(s[1], e) /\ OnSeg(s[2], e)
 \* <<inside just below s, inside just above s>>; for a vertical atom: <<left, right>>
 Par(X, s) ==
   LET vert == s[1][1] = s[2][1]
-      m2 == IF vert THEN T(<<s[1][1]+s[2][1], s[1][2]+s[2][2]>>) ELSE <<s[1][1]+s[2][1], s[1][2]+s[2][2]>>
-      b == Cardinality({x \in X : LET f == IF vert THEN TE(x.e) ELSE x.e IN f[1][1] # f[2][1] /\ BelowNV(f, m2)}) % 2 = 1
+      m2 == IF vert THEN Tr(<<s[1][1]+s[2][1], s[1][2]+s[2][2]>>) ELSE <<s[1][1]+s[2][1], s[1][2]+s[2][2]>>
+      b == Cardinality({x \in X : LET f == IF vert THEN TrE(x.e) ELSE x.e IN f[1][1] # f[2][1] /\ BelowNV(f, m2)}) % 2 = 1
       c == Cardinality({x \in X : Covers(x.e, s)}) % 2 = 1
   IN <<b, b # c>>
 
